@@ -93,9 +93,15 @@ def scenarios(pid):
         def check_files(root):
             tree(root)
             before = snapshot(root)
-            for args, want in ((['--check', 'a.typ'], 1), (['--check', 'b.typ'], 0), (['--check', 'bad.typ'], 0), (['--check', 'b.typ', 'a.typ'], 1),
-                               (['--check', 'b.typ', 'bad.typ'], 0), (['--check', 'missing.typ', 'b.typ'], 1), (['--check', '-c', '20', 'b.typ'], 0),
-                               (['--check', 'format-all', '.'], 1), (['--check', 'format-all', 'outside'], 1), (['--check', 'format-all', '.hiddenroot'], 1)):
+            import itertools
+            # every ordered selection of up to three of: an unformatted file, a formatted one, an erroneous one -- the run must
+            # exit 1 exactly when an unformatted file is among them, whatever the order
+            combos = []
+            for k in (1, 2, 3):
+                for sel in itertools.permutations(('a.typ', 'b.typ', 'bad.typ'), k):
+                    combos.append((['--check'] + list(sel), 1 if 'a.typ' in sel else 0))
+            for args, want in combos + [(['--check', 'missing.typ', 'b.typ'], 1), (['--check', '-c', '20', 'b.typ'], 0),
+                               (['--check', 'format-all', '.'], 1), (['--check', 'format-all', 'outside'], 1), (['--check', 'format-all', '.hiddenroot'], 1)]:
                 rc, out, err = run(args, root)
                 if snapshot(root) != before:
                     return '`typstyle %s` changed a file (content or mtime)' % ' '.join(args)
@@ -195,6 +201,14 @@ def scenarios(pid):
             rc, out, err = run(['bad.typ'], root)
             if out != ERRONEOUS:
                 return 'erroneous input is not printed unchanged'
+            # several files, well-formed and erroneous ones mixed: stdout is the concatenation in argument order
+            import itertools
+            texts = {'a.typ': lib(UNFORMATTED), 'w.typ': lib(WIDE), 'bad.typ': ERRONEOUS}
+            for k in (2, 3):
+                for sel in itertools.permutations(('a.typ', 'w.typ', 'bad.typ'), k):
+                    rc, out, err = run(list(sel), root)
+                    if out != ''.join(texts[f] for f in sel):
+                        return 'stdout of `typstyle %s` is not the in-order concatenation of the library results (erroneous input unchanged)' % ' '.join(sel)
             return None
         S.append(('all front-ends agree with the library', agree))
     return S
